@@ -4,6 +4,7 @@ CONSTANTS
   EnvKeys = {"A", "B", "C"}
   Ends <- MC_Ends_thorough
   Methods = {"loky", "loky_init_main"}
+  Launches = {"script", "module"}
 INVARIANT NoLeak
 INVARIANT SentinelIffGone
 INVARIANT ExitFaithful
